@@ -144,7 +144,7 @@ def generate(rng, run, tier):
         mods[0]['sub'] = 'h'
     nruns = rng.randint(2, 5)
     runs = []
-    same_shape_only = rng.random() < 0.7       # avoid switch: known finding C16-marker-ignores-configuration
+    same_shape_only = False     # (was an avoid switch for C16-marker-ignores-configuration, repaired since)
     first_conf = rng.choice(list(CONFS))
     for r in range(nruns):
         hook = rng.choice(['off'] + list(CONFS) * 2)
@@ -167,7 +167,7 @@ def generate(rng, run, tier):
         if rng.random() < 0.12:
             run_spec['crash_at'] = rng.randint(5, 1500)
         runs.append(run_spec)
-    avoid_race = rng.random() < 0.7
+    avoid_race = False          # (was an avoid switch for C16-cache-from-source-race, repaired since)
     if avoid_race:
         # known finding C16-cache-from-source-race: while a hook is on, no thread imports a hooked module
         # concurrently with anything else (hooked modules are imported after the threads, sequentially)
